@@ -192,21 +192,31 @@ def opNew (legacy : Bool) (a : List String) : Option St × String :=
     | _, _ => (none, "bad-op")
   | _ => (none, "bad-op")
 
-/-- one packet: (SBN, ESI, length and FNV-64 of a source payload, source block length for FEC ID 129, A, B) and the FNV-64 of
-    the DATAGRAM `Alc.newAlcPkt file.oti 0 tsi (toAlc p)` (TSI 1, TOI 1, CCI 0) - whole for source symbols, header +
-    extensions + FEC payload ID for repair symbols (their payload is the FEC library's) -/
+/-- what an RFC decoder reads out of EXT_FTI for the file's OTI (`Admission`'s result) and transfer length: each value
+    in the width its field has in the FEC scheme's layout (RFC 5445 §4/§5, 5510 §5.2, 6330 §3.3, 5053 §3.2) -/
+def ftiFields (o : Flute.Fti.Oti) (tlen : Nat) : String :=
+  let j (xs : List Nat) : String := ":".intercalate (xs.map toString)
+  match o.fecId, o.ss with
+  | 0, _ => j [tlen % 2^48, o.esl % 2^16, o.maxSbl % 2^32]
+  | 5, _ => j [tlen % 2^48, o.esl % 2^16, o.maxSbl % 2^8, (o.parity + o.maxSbl) % 2^8]
+  | 129, _ => j [tlen % 2^48, o.inst % 2^16, o.esl % 2^16, o.maxSbl % 2^16, (o.parity + o.maxSbl) % 2^16]
+  | 6, .raptorq z n al => j [tlen % 2^40, o.esl % 2^16, z % 2^8, n % 2^16, al % 2^8]
+  | 1, .raptor z n al => j [tlen % 2^48, o.esl % 2^16, z % 2^16, n % 2^8, al % 2^8]
+  | _, _ => "?"
+
+/-- one packet: (SBN, ESI, length and FNV-64 of a source payload, source block length for FEC ID 129, A, B) and what an
+    RFC decoder reads in the header besides the payload ID: TOI (1), codepoint (= FEC encoding ID), the EXT_FTI fields
+    of `file.oti` (object packets carry EXT_FTI: `inband_fti`).  The header's BYTE layout is C06's (engine wire), not
+    compared here; `ERRPKT` = the model's builder `Alc.newAlcPkt file.oti 0 tsi (toAlc p)` overflows (a Rust panic) -/
 def showPkt (w : WireCfg) (p : Pkt) : String :=
   let len := if p.isSource then toString p.payload.length else "-"
   let h := if p.isSource then hexN 16 (fnv64 p.payload) else "r"
   let sbl := if w.scheme == "rs28us" then toString p.sbl else "-"
   let (a, b) := alcFlags p
-  -- `datagram = datagramHead ++ payload` (BlockEncWire.datagram_eq_head_append): the hash is continued over the payload
-  let dh := match Flute.BlockEncWire.datagramHead w.oti 1 1 w.tlen w.cenc false p with
-    | .ok head =>
-      let st := fnvFrom 0xcbf29ce484222325 head
-      hexN 16 (if p.isSource then fnvFrom st p.payload else st).toNat
+  let hdr := match Flute.BlockEncWire.datagramHead w.oti 1 1 w.tlen w.cenc false p with
+    | .ok _ => s!"t1/c{w.oti.fecId}/{ftiFields w.oti w.tlen}"
     | .error _ => "ERRPKT"
-  s!"{p.sbn},{p.esi},{len},{h},{sbl},{if a then 1 else 0},{if b then 1 else 0},{dh}"
+  s!"{p.sbn},{p.esi},{len},{h},{sbl},{if a then 1 else 0},{if b then 1 else 0},{hdr}"
 
 /-- read until something that is not a packet; returns the joined observation -/
 def readAll (w : WireCfg) : Nat → Session → List String → Bool × Session × List String
